@@ -24,11 +24,11 @@ import (
 	"bufio"
 	"bytes"
 	"context"
+	crand "crypto/rand"
 	"encoding/json"
 	"errors"
 	"fmt"
 	"iter"
-	crand "crypto/rand"
 	"math/rand/v2"
 	"net/http"
 	"os"
@@ -433,10 +433,10 @@ type c08Run struct {
 	exch     map[string]*c08Exch
 	order    []*c08Exch
 	handlers map[string]*c08Handler
-	streams  map[string]string          // "s.r" -> stream id (learned from st.open / event ids)
-	issued   map[string]map[int]bool    // "s/stream" -> event indices handed to the client
-	sreqs    map[string][]string        // "s.r" -> JSON-RPC ids of unanswered server->client requests
-	gates    map[string]*c08Gate        // armed gates
+	streams  map[string]string       // "s.r" -> stream id (learned from st.open / event ids)
+	issued   map[string]map[int]bool // "s/stream" -> event indices handed to the client
+	sreqs    map[string][]string     // "s.r" -> JSON-RPC ids of unanswered server->client requests
+	gates    map[string]*c08Gate     // armed gates
 	held     atomic.Int32
 	nans     int
 	creating string
